@@ -212,3 +212,24 @@ CHECKS["C18"] = dict(
               "parked-then-released-by-error", "probe:blocking-writer-waits", "stall:never", "kind:qblock", "kind:qnonblock", "queue:1", "queue:2", "queue:>2"],
     assumptions=_E1_ASSUME,
 )
+
+CHECKS["C05"] = dict(
+    test="TestC05", level="exploration",
+    quick=dict(shards=16, checks=500, timeout=400),
+    thorough=dict(shards=16, checks=60000, timeout=3400, shrinktime="120s"),
+    rule="cooperative-scheduler cases with the pipeline [real ChannelHolder, lifecycle probe, recorders, transport reader]: 0-4 closer tasks "
+         "with distinct error values (one may be nil), Close from inside HandleActive / the k-th HandleRead / HandleEvent, parent-context "
+         "cancellation, peer EOF, read failure (timeout, non-timeout net.Error, plain error), injected sender-side Writev/Flush failure, "
+         "holder.CloseAll, a feeder delivering inbound chunks, 0-2 writers, user events; in 2/3 of the cases the activation itself "
+         "(ServeChannel + read-loop start) runs under the scheduler so that closers race it; generated schedule. Oracle over the recorded "
+         "history: active once, completed before ServeChannel returned and before the first read; read deliveries never overlap; exactly "
+         "one Close takes effect, transport closed once, inactive once, inside that Close call and carrying its argument (identity); "
+         "IsActive false right after every Close return; context cancelled after the effective Close returned; read loop ends after a "
+         "read failure. 1 case in 40 is a stress case without scheduler (2-8 real goroutines released by a barrier call Close at once, "
+         "150 rounds) because the closer election itself contains no yield point. Non-trivial = at least two Close calls whose executions overlap. Distinct by case hash.",
+    replay_repeat=30,
+    required=["closes-overlap", "stress", "scheduled-activation", "close-source:task", "close-source:HandleActive", "close-source:HandleRead",
+              "close-source:HandleEvent", "close-source:holder", "winner:implicit", "nil-error-close", "read-failed", "reads-delivered",
+              "kind:sync", "kind:qblock", "kind:qnonblock"],
+    assumptions=_E1_ASSUME + ["ServeChannel's wait for the activation has no yield point: its task continues on its own (detached) and its return is ordered by sequence numbers"],
+)
